@@ -418,9 +418,12 @@ bool exec_str_a(Ctx &c, const Op &op) {
         StrObj *dst = pick(v, op.a);
         if (!dst) { c.skipped = true; return true; }
         unsigned form = op.d % 7;
-        std::string text = take_units<char>(c, op.b, op.c); text = text.substr(0, text.find('\0'));
+        std::string text = take_units<char>(c, op.b, op.c);
+        if (op.fault & F_CORRUPT) corrupt_units<char>(text, op.fc);      // a file name whose native bytes are not UTF-8 is a legal path
+        text = text.substr(0, text.find('\0'));
+        const bool path_wf = strict_utf8(text.data(), text.size()) && !has_c03_hazard(text.data(), text.size());
         std::filesystem::path path(std::u8string((const char8_t *)text.data(), text.size()));
-        note_sig(c, op, std::string("form=") + std::to_string(form) + ",dst=" + cl(dst) + ",in=" + cls_letter(text.size(), 16));
+        note_sig(c, op, std::string("form=") + std::to_string(form) + ",dst=" + cl(dst) + ",in=" + cls_letter(text.size(), 16) + (path_wf ? "" : ",invalid"));
         c.budget_bytes = (text.size() + dst->model.size()) * 6 + 64;
         if (dst->moved_from) c.touched_moved_from = true;
         if (form <= 2) { as_target(dst); note_mutating(c, dst); } else as_const(dst);
@@ -439,7 +442,8 @@ bool exec_str_a(Ctx &c, const Op &op) {
             default: new (mem) ST::string(ST::format("<{}>", path)); break;
             }
         });
-        if (settle(c, op, ex, 0)) {
+        if (ex != EX_NONE && ex != EX_BAD_ALLOC && form <= 2 && dst->model.size() >= 16) probe(c, PR_THROW_WITH_HEAP_TARGET);
+        if (settle(c, op, ex, path_wf ? 0 : bit(EX_UNICODE))) {
             switch (form) {
             case 0: case 1: case 2: dst->model = text; dst->moved_from = false; break;
             case 3: { StrObj *o = add_str(c, mem); o->role = ROLE_NEW; o->model = text; break; }
@@ -458,12 +462,12 @@ bool exec_str_a(Ctx &c, const Op &op) {
         size_t sz = dst->model.size();
         size_t off = resolve_code(op.b, sz); if (off == ST_AUTO_SIZE || off > sz) off = sz ? off % (sz + 1) : 0;
         size_t len = resolve_code(op.c, sz); if (len == ST_AUTO_SIZE || off + len > sz) len = sz - off;
-        unsigned form = op.d % 5;
+        unsigned form = op.d % 7;
         std::string slice = dst->model.substr(off, len), rest = dst->model.substr(off);
         std::string cut = rest.substr(0, rest.find('\0'));
         std::string expect = form == 0 ? cut : form == 2 ? dst->model + cut : slice;
         const std::string &validated = form == 0 || form == 2 ? cut : slice;
-        bool wf = form == 4 ? true : strict_utf8(validated.data(), validated.size());
+        bool wf = form >= 4 ? true : strict_utf8(validated.data(), validated.size());
         note_sig(c, op, std::string("form=") + std::to_string(form) + ",dst=" + cl(dst) + ",off=" + (off == 0 ? "0" : off == sz ? "end" : "mid") + ",in=" + cls_letter(validated.size(), 16) + (wf ? "" : ",invalid"));
         c.budget_bytes = sz * 4 + 16;
         if (dst->moved_from) c.touched_moved_from = true;
@@ -476,6 +480,8 @@ bool exec_str_a(Ctx &c, const Op &op) {
             case 1: d.set(d.c_str() + off, len); break;
             case 2: d += d.c_str() + off; break;
             case 3: d = d.view(off, len); break;
+            case 5: d.set_validated(d.c_str() + off, len); break;
+            case 6: d.set_validated(d.u8_str() + off, len); break;
             default: d.set(d.c_str() + off, len, ST::assume_valid); break;
             }
         });
@@ -486,13 +492,24 @@ bool exec_str_a(Ctx &c, const Op &op) {
         }
         return true;
     }
+    case S_SWAP: {
+        // exchanging two strings the way generic code (std::sort, std::reverse, pair::swap) does: unqualified swap, std::iter_swap, std::swap
+        StrObj *a = pick(v, op.a), *b = pick(v, op.b);
+        if (!a || !b || a == b) { c.skipped = true; return true; }
+        note_sig(c, op, std::string("a=") + cl(a) + ",b=" + cl(b) + ",form=" + std::to_string(op.c % 3));
+        if (a->moved_from || b->moved_from) c.touched_moved_from = true;
+        as_target(a); as_target(b); note_mutating(c, a); note_mutating(c, b);
+        ExcKind ex = run_sut(c, op, [&] { using std::swap; switch (op.c % 3) { case 0: swap(*a->p(), *b->p()); break; case 1: std::iter_swap(a->p(), b->p()); break; default: std::swap(*a->p(), *b->p()); break; } });
+        if (settle(c, op, ex, 0)) { std::swap(a->model, b->model); std::swap(a->moved_from, b->moved_from); }
+        return true;
+    }
     case S_CLEAR: {
         StrObj *dst = pick(v, op.a);
         if (!dst) { c.skipped = true; return true; }
         note_sig(c, op, std::string("dst=") + cl(dst));
         if (dst->moved_from) c.touched_moved_from = true;
         as_target(dst); note_mutating(c, dst);
-        ExcKind ex = run_sut(c, op, [&] { dst->p()->clear(); });
+        ExcKind ex = run_sut(c, op, [&] { switch (op.b % 3) { case 0: dst->p()->clear(); break; case 1: *dst->p() = ST::null; break; default: dst->p()->set(ST::null); break; } });
         if (settle(c, op, ex, 0)) { dst->model.clear(); dst->moved_from = false; }
         return true;
     }
